@@ -64,7 +64,11 @@ static void run_model_case(Rng &r)
     int naddr = (int)r.range(2, 5);
     std::vector<std::string> addrs;
     std::vector<char> types;
-    for(int i = 0; i < naddr; ++i) { addrs.push_back(fmt("/p%d/%s", i, i % 2 ? "volume" : "x")); types.push_back("ifc"[r.below(3)]); }
+    // distinct addresses; some are proper prefixes of others, lengths cover every residue mod 4
+    static const char *POOL[] = {"/p0/x", "/p1/volume", "/p2/x", "/p3/volume", "/vol", "/vol1", "/vol10", "/vol100", "/a/b", "/a/bc", "/a/b/cde", "/a/b/cdef", "/x", "/part0/kit", "/part0/kit1"};
+    std::vector<std::string> pool(POOL, POOL + 15);
+    for(int i = 0; i < naddr; ++i) { size_t k = r.below(pool.size()); addrs.push_back(pool[k]); pool.erase(pool.begin() + (long)k); types.push_back("ifc"[r.below(3)]); }
+    for(auto &x : addrs) for(auto &y : addrs) if(x != y && y.compare(0, x.size(), x) == 0) { count("addresses.one_prefix_of_another"); break; }
     std::map<std::string, uint32_t> cur;
     int ops = (int)r.range(0, 60);
     std::string hist;
